@@ -4,3 +4,4 @@ import PikaVerif.Model.Sem
 import PikaVerif.Lemmas.Sem
 import PikaVerif.Lemmas.Sem2
 import PikaVerif.Props.C08
+import PikaVerif.Model.Erase
